@@ -10,7 +10,7 @@ from vf.xmodel import Schema, Rop, build_api, build_loader
 
 SHARDS = {'quick': 16, 'thorough': 32}
 TIMEOUT = {'quick': 900, 'thorough': 5400}
-MUST_HIT = ['IdFresh.long-run-ids', 'IdFresh.instance-attribute', 'Generator.user-source-sequence', 'Generator.swapped', 'ArgModel.creation', 'IdFresh.defaulted-id', 'IdFresh.generator-next', 'Generator.peek',
+MUST_HIT = ['Schema.attributes-given-as-one-shot-iterable', 'Ambient.IdFresh.ambient', 'Ambient.Suite.tests-passed', 'IdFresh.long-run-ids', 'IdFresh.instance-attribute', 'Generator.user-source-sequence', 'Generator.swapped', 'ArgModel.creation', 'IdFresh.defaulted-id', 'IdFresh.generator-next', 'Generator.peek',
             'Generator.integer-sequence', 'UnknownType.rejected', 'Referential.argument',
             'Schema.association-formalized-after-creations', 'Schema.iterations-between-definition-and-formalization', 'Schema.attribute-replaced',
             'Schema.attribute-added', 'Schema.attribute-removed', 'Generator.drawn-by-for-break',
@@ -116,7 +116,16 @@ def run_case(ctx, rng, n_case):
     rops = [r for r in rops if r not in late]
     sch = Schema(classes, rops)
     route = rng.choice(('api', 'loader'))
-    m = build_api(sch, gen) if route == 'api' else build_loader(sch, gen)
+    def attr_form(attrs):
+        # the attribute list of a class in whatever form a caller has it: a list, a tuple, or something that can be
+        # walked only once (zip of names and types, a generator, an iterator)
+        attrs = list(attrs)
+        k = rng.randrange(6)
+        if k >= 3:
+            ctx.hit('Schema.attributes-given-as-one-shot-iterable')
+        return (attrs, tuple(attrs), list(attrs), zip([a for a, _ in attrs], [t for _, t in attrs]),
+                ((a, t) for a, t in attrs), iter(attrs))[k]
+    m = build_api(sch, gen, attr_form=attr_form) if route == 'api' else build_loader(sch, gen)
     defaulted = []    # ids handed out as defaults, in order
     instance_ids = set()    # defaulted ids as read from the created instances
     disclosed = set()       # ids the generator disclosed through peek() and the caller then put into the model
@@ -409,6 +418,11 @@ def long_run(ctx, rng):
 
 def run(ctx):
     rng = ctx.rng
+    if ctx.shard == ctx.nshards - 1:
+        # the ids defaulted while the repository's own tests run (model loading, prebuild, interpretation)
+        from vf import ambient
+        ambient.report(ctx, ambient.run_suite(ctx, ('ids',)), 'Ambient')
+        return
     try:
         long_run(ctx, rng)
     except Mismatch as e:
